@@ -11,5 +11,5 @@ CONSTANTS
   InitKinds = {"live", "dead"}
   StoreExp = {"live"}
   Bug = {}
-INVARIANTS TypeOK LocksetDiscipline AccessRelationRespected NoTornExpiry NoLostInvalidate RefinesSeq Linearizable
+INVARIANTS TypeOK LocksetDiscipline AccessRelationRespected NoTornExpiry NoLostInvalidate RefinesSeq Linearizable HandshakeUndisturbed
 CHECK_DEADLOCK FALSE
